@@ -89,7 +89,7 @@ CLAIMS = {
  "C02": ("Coq theorems about one-RPC-per-stream connections (Rpc.v: caller and server processes over FIFO byte pipes, any chunking, any interleaving, any handler completion "
          "order, any number of streams carrying anything): the handler is invoked at most once per stream, on a stream carrying the encoding of a well-formed request the "
          "handler sees exactly that request and the caller gets exactly the response produced for it (through C07's round trip and prefix-rejection theorems), a step of one "
-         "stream leaves every other unchanged; tied by fabric runs with up to 128 concurrent RPCs in both directions under delay, reordering, duplication and loss, every "
+         "stream leaves every other unchanged; tied by trace acceptance (the per-RPC events both ends record through cfg-guarded trace points are replayed on Rpc.v by RpcTrace.erun - proved to be a model run - with the model's own encoder, decoder and the recorded handler table; invocation counts and the response each caller got must agree) and by fabric runs with up to 128 concurrent RPCs in both directions under delay, reordering, duplication and loss, every "
          "result and both servers' request logs checked. Partial: QUIC reliability and ordering are quinn's (model component).",
          "quinn's stream reliability under datagram faults is assumed and exercised."),
  "C06": ("Coq theorems: whatever bytes a stream carries the server keeps reading, starts the handler with a request that really decodes from them, or fails that stream only; "
@@ -99,7 +99,7 @@ CLAIMS = {
          "panic-freedom of the transcribed Rust functions is exercised only."),
  "C12": ("Coq theorems on Rpc.v extended with abandonment (reset of the send half, stop of the receive half, possible in every caller state): once noticed, the handler is "
          "dropped and none ever starts, closed streams are absorbing, every abandoned open stream has an enabled closing step, at server quiescence every abandoned stream is "
-         "closed (no credit leak), siblings are untouched; tied by fabric runs abandoning 3-8x the concurrent-stream limit of calls at instants sweeping the whole exchange, "
+         "closed (no credit leak), siblings are untouched; tied by trace acceptance of both ends' per-RPC events on Rpc.v (abandonment = Abandon then NoticeStop / NoticeReset; every abandoned stream must end closed at the accepting side) over fabric runs abandoning 3-8x the concurrent-stream limit of calls at instants sweeping the whole exchange, "
          "with handler start/drop counters, live siblings and fresh RPCs afterwards. Partial: QUIC stream-state and credit accounting are quinn's.",
          "quinn stream credit accounting is a validated model component."),
  "C08": ("Coq theorems on a transition system of the manager loop, handlers, API calls and shutdown(): the shutdown sequence never gets stuck and takes at most meas(s) steps, "
